@@ -1037,6 +1037,12 @@ func (schema *Schema) validate(ctx context.Context, stack []*Schema) ([]*Schema,
 			return stack, fmt.Errorf("unsupported 'type' value %q", schemaType)
 		}
 	}
+	if (schema.Type == nil || len(schema.Type.Slice()) == 0) && !validationOpts.schemaPatternValidationDisabled && schema.Pattern != "" {
+		// without a type the pattern still applies to every string value
+		if _, err := schema.compilePattern(validationOpts.regexCompilerFunc); err != nil {
+			return stack, err
+		}
+	}
 
 	if ref := schema.Items; ref != nil {
 		v := ref.Value
